@@ -96,7 +96,9 @@ def make_world(rng, repo, features, n_files=None):
     if "untracked" in features:
         for k in range(rng.randint(0, 3)):
             d = rng.choice(["", "dir", "lib"])
-            if os.path.isfile(os.path.join(repo, d)):
+            # not inside a (possibly sparse) directory of a sparse index: git un-sparsifies directories that are present
+            # on disk when it *loads* the index, so `ls-files --sparse` would no longer show what the file holds
+            if os.path.isfile(os.path.join(repo, d)) or "sparse" in features:
                 d = ""
             os.makedirs(os.path.join(repo, d), exist_ok=True)
             with open(os.path.join(repo, d, "untracked%d" % k), "w") as f:
